@@ -31,6 +31,7 @@ import (
 	"crypto/sha256"
 	"encoding/base64"
 	"encoding/hex"
+	"encoding/json"
 	"errors"
 	"fmt"
 	"html"
@@ -38,6 +39,7 @@ import (
 	mrand "math/rand"
 	"net/http"
 	"net/url"
+	"os"
 	"reflect"
 	"regexp"
 	"strconv"
@@ -124,6 +126,12 @@ type c05Cfg struct {
 	// Provider: "" = the generic oidc provider; otherwise an OIDC-derived provider type (entra-id, keycloak-oidc, adfs)
 	// built against the same fake identity provider: the nonce rule is the same for all of them.
 	Provider string
+	// Variant: how the method reached the instance when not through a lone, exactly spelled --code-challenge-method:
+	// together with the deprecated --force-code-challenge-method, through a config file, through the alpha configuration,
+	// or with a spelling the documentation does not list. Method stays the CONFIGURED method (the documented option).
+	Variant string
+	// Unknown: Method is not one of the documented values (S256, plain): the harness cannot recompute the challenge
+	Unknown bool
 }
 
 func (c c05Cfg) Label() string {
@@ -138,6 +146,9 @@ func (c c05Cfg) Label() string {
 	if c.Provider != "" {
 		l += ",provider=" + c.Provider
 	}
+	if c.Variant != "" {
+		l += ",variant=" + c.Variant
+	}
 	return l
 }
 
@@ -145,6 +156,7 @@ type c05Inst struct {
 	Cfg  c05Cfg
 	P    *vfProxy
 	Lean bool // reduced behaviour x shape grid (the instance exists for the method/leak monitors)
+	Tiny bool // (with Lean) only the honest / nonce-less behaviours on the sequential shape
 	// IdentExtra: extra ID-token claims every identity of this instance carries (entra-id: a Microsoft-shaped `iss`;
 	// keycloak-oidc: a marker that makes the fake provider hand out a JWT access token)
 	IdentExtra map[string]interface{}
@@ -344,6 +356,12 @@ type c05Script struct {
 	Beh   string // echo | set | absent | replay | capture
 	Value interface{}
 	Key   string
+	// UISet: the provider's userinfo endpoint answers the access token issued for this code with a `nonce` member UINonce
+	// (next to the usual profile members), and the ID token lacks preferred_username, so that the proxy has a reason to
+	// ask the userinfo endpoint at all. The nonce the property speaks about is the signed ID token's claim: whatever
+	// userinfo says must not matter.
+	UISet   bool
+	UINonce interface{}
 
 	mu      sync.Mutex
 	applied bool
@@ -370,6 +388,8 @@ type c05World struct {
 	W        *vfWorld
 	scripts  sync.Map // code -> *c05Script
 	captured sync.Map // key -> id token
+	uiByTok  sync.Map // id token -> *c05Script (userinfo scripted for the access token issued with it)
+	uiByAT   sync.Map // access token -> *c05UI
 
 	mu       sync.Mutex
 	logins   []*c05Login
@@ -400,9 +420,47 @@ func (cw *c05World) install() {
 				claims["vf_c05_capture"] = sc.Key
 			}
 			sc.setFinal(claims["nonce"])
+			if sc.UISet {
+				delete(claims, "preferred_username")
+				claims["vf_c05_ui"] = ar.Code
+			}
 		}
-		c.TokenResponseMutate = c05TokenResponse
+		c.TokenResponseMutate = func(grant string, resp map[string]interface{}) {
+			c05TokenResponse(grant, resp)
+			idt, _ := resp["id_token"].(string)
+			at, _ := resp["access_token"].(string)
+			if v, ok := cw.uiByTok.Load(idt); ok && idt != "" && at != "" {
+				cl := vfJWTClaims(idt)
+				sub, _ := cl["sub"].(string)
+				email, _ := cl["email"].(string)
+				cw.uiByAT.Store(at, &c05UI{Script: v.(*c05Script), Sub: sub, Email: email})
+			}
+		}
+		c.Hook = func(ev *vfIdPEvent) *vfIdPReply {
+			if ev.Kind != "userinfo" {
+				return nil
+			}
+			v, ok := cw.uiByAT.Load(strings.TrimPrefix(ev.Auth, "Bearer "))
+			if !ok {
+				return nil
+			}
+			ui := v.(*c05UI)
+			body, err := json.Marshal(map[string]interface{}{"sub": ui.Sub, "email": ui.Email, "preferred_username": "ui-" + ui.Sub, "groups": []string{"g"}, "nonce": ui.Script.UINonce})
+			if err != nil {
+				return nil
+			}
+			cw.Run.Count("userinfo_answers_with_hostile_nonce", 1)
+			return &vfIdPReply{Status: 200, Body: body}
+		}
 		c.MintOverride = func(grant string, claims map[string]interface{}) (string, bool) {
+			if code, ok := claims["vf_c05_ui"].(string); ok {
+				delete(claims, "vf_c05_ui")
+				if v, ok := cw.scripts.Load(code); ok {
+					tok := vfMint(claims, vfMintOpts{})
+					cw.uiByTok.Store(tok, v)
+					return tok, true
+				}
+			}
 			if k, ok := claims["vf_c05_capture"].(string); ok {
 				delete(claims, "vf_c05_capture")
 				tok := vfMint(claims, vfMintOpts{})
@@ -426,7 +484,12 @@ func (cw *c05World) install() {
 }
 
 func (cw *c05World) uninstall() {
-	cw.W.IdP.Set(func(c *vfIdPCfg) { c.MutateIDClaims, c.MintOverride, c.TokenResponseMutate = nil, nil, nil })
+	cw.W.IdP.Set(func(c *vfIdPCfg) { c.MutateIDClaims, c.MintOverride, c.TokenResponseMutate, c.Hook = nil, nil, nil, nil })
+}
+
+type c05UI struct {
+	Script     *c05Script
+	Sub, Email string
 }
 
 const c05JWTAccessTokenClaim = "vf_c05_jwt_access_token"
@@ -663,6 +726,7 @@ func c05Hashed(l *c05Login) string {
 
 func c05Behaviours() []c05Beh {
 	set := func(v interface{}) *c05Script { return &c05Script{Beh: "set", Value: v} }
+	ui := func(sc *c05Script, v interface{}) *c05Script { sc.UISet, sc.UINonce = true, v; return sc }
 	raw := func(Y *c05Login, f func([]byte) string) *c05Script {
 		if Y.Raw == nil {
 			return nil
@@ -697,6 +761,21 @@ func c05Behaviours() []c05Beh {
 		{"list-with-this-logins-nonce", func(Y, O *c05Login) *c05Script { return set([]string{c05Hashed(Y)}) }},
 		{"number", func(Y, O *c05Login) *c05Script { return set(12345) }},
 		{"previous-logins-id-token-replayed", nil}, // handled by the unit runner (needs a completed login)
+		// the nonce from anywhere but the signed ID token: the userinfo endpoint (asked with this login's access token)
+		// offers a `nonce` member while the ID token has none / a wrong one. Names contain "userinfo" (grid selection).
+		{"absent+userinfo-says-this-logins-nonce", func(Y, O *c05Login) *c05Script { return ui(&c05Script{Beh: "absent"}, c05Hashed(Y)) }},
+		{"absent+userinfo-says-raw-nonce", func(Y, O *c05Login) *c05Script {
+			sc := raw(Y, base64.RawURLEncoding.EncodeToString)
+			if sc == nil {
+				return nil
+			}
+			return ui(&c05Script{Beh: "absent"}, sc.Value)
+		}},
+		{"null+userinfo-says-this-logins-nonce", func(Y, O *c05Login) *c05Script { return ui(set(nil), c05Hashed(Y)) }},
+		{"empty-string+userinfo-says-this-logins-nonce", func(Y, O *c05Login) *c05Script { return ui(set(""), c05Hashed(Y)) }},
+		{"other-logins-nonce+userinfo-says-this-logins-nonce", func(Y, O *c05Login) *c05Script { return ui(set(c05Hashed(O)), c05Hashed(Y)) }},
+		// control in the other direction: the ID token is right, userinfo contradicts it — the login is bound and must succeed
+		{"this-logins-nonce+userinfo-says-other-logins-nonce", func(Y, O *c05Login) *c05Script { return ui(set(c05Hashed(Y)), c05Hashed(O)) }},
 	}
 }
 
@@ -1053,7 +1132,7 @@ func (cw *c05World) entropyFaults(insts []*c05Inst) {
 	seq := 0
 	for _, inst := range insts {
 		c := inst.Cfg
-		if c.Advertised != "" || c.Provider != "" || c.SkipNonce {
+		if c.Advertised != "" || c.Provider != "" || c.SkipNonce || c.Variant != "" {
 			continue
 		}
 		for _, pl := range plans {
@@ -1230,7 +1309,7 @@ func (cw *c05World) history() {
 				run.Violation("c05:verifier-not-rfc7636", fmt.Sprintf("[%s] the verifier stored for login %s has %d characters / characters outside the unreserved set: %q", cfg.Label(), l.ID, len(l.Raw.CV), vfTrunc(l.Raw.CV, 140)),
 					map[string]interface{}{"flags": l.Inst.P.Flags, "verifier": l.Raw.CV, "login_url": l.LoginURL})
 			}
-			if c05Challenge(cfg.Method, l.Raw.CV) != l.Challenge {
+			if !cfg.Unknown && c05Challenge(cfg.Method, l.Raw.CV) != l.Challenge {
 				run.Violation("c05:challenge-not-derived-from-stored-verifier", fmt.Sprintf("[%s] login %s: code_challenge %q is not %s(verifier kept in the CSRF cookie)", cfg.Label(), l.ID, l.Challenge, cfg.Method),
 					map[string]interface{}{"flags": l.Inst.P.Flags, "verifier": l.Raw.CV, "challenge": l.Challenge, "login_url": l.LoginURL})
 			}
@@ -1282,6 +1361,100 @@ func (cw *c05World) history() {
 			run.Count("cross_redemptions_rejected_by_provider", 1)
 		} else {
 			run.Count("own_redemptions_verified_by_provider", 1)
+		}
+	}
+}
+
+
+// ---------------------------------------------------------------------------------------------------------
+// method values the documentation does not list
+
+// c05OddMethods: spellings an operator plausibly ends up with (case, blanks from env files, the name of the hash, a
+// method of the wrong strength, a list). Nothing in the documentation makes them mean "no PKCE".
+func c05OddMethods(seed int64, thorough bool) []string {
+	all := []string{"s256", "S256 ", "S512", "PLAIN", " plain", "Plain", "sha256", "S-256", "S256,plain", "plain\t", "none", "SHA-256", "s256 ", "S384", "true"}
+	if thorough {
+		return all
+	}
+	// quick: the first three always, plus four chosen by the seed
+	out := append([]string{}, all[:3]...)
+	rest := all[3:]
+	for k := 0; k < 4; k++ {
+		out = append(out, rest[(int(seed)*5+k*3)%len(rest)])
+	}
+	return out
+}
+
+// oddMethods: an instance configured with a method value outside {S256, plain}. "A configured method => every authorization
+// request carries a challenge of that method derived from a fresh verifier" can then only be kept by refusing: at start-up
+// (instance not built), or at every login start (error status, no redirect to the provider, no CSRF cookie). A login that
+// is started all the same is judged like any other (method rule, verifier shape, redemption), which it cannot pass without
+// a challenge.
+func (cw *c05World) oddMethods(t *testing.T) {
+	run := cw.Run
+	w := cw.W
+	for k, sp := range c05OddMethods(run.Env.Seed, run.Env.Thorough()) {
+		opt := "--code-challenge-method"
+		if (k+int(run.Env.Seed))%4 == 3 {
+			opt = "--force-code-challenge-method" // the deprecated option standing alone
+		}
+		spb := (k+int(run.Env.Seed))%2 == 0
+		cfg := c05Cfg{Method: sp, Unknown: true, PerReq: k%2 == 1, Variant: fmt.Sprintf("%s=%q", strings.TrimPrefix(opt, "--"), sp)}
+		p, err := w.NewProxy("--insecure-oidc-skip-nonce=false", "--cookie-csrf-per-request="+strconv.FormatBool(cfg.PerReq), opt+"="+sp, "--skip-provider-button="+strconv.FormatBool(spb))
+		if err != nil {
+			run.Eval(fmt.Sprintf("odd-method|%s|refused-at-start-up", cfg.Variant))
+			run.Count("odd_method_instances_refused_at_start_up", 1)
+			continue
+		}
+		inst := &c05Inst{Cfg: cfg, P: p, Lean: true, Tiny: true}
+		run.Count("odd_method_instances", 1)
+		entries := []string{p.Opts.ProxyPrefix + "/start?rd=" + vfQueryEscape(fmt.Sprintf("/app/c05/odd/%d", k))}
+		if spb {
+			entries = append(entries, fmt.Sprintf("/app/c05/odd/%d/direct", k)) // unauthenticated page request: straight to the provider
+		}
+		for e, target := range entries {
+			entry := []string{"start-endpoint", "page-request"}[e]
+			req := vfGET(target)
+			resp := p.Do(req)
+			det := map[string]interface{}{"flags": p.Flags, "request": req, "status": resp.Code, "location": resp.Location(), "set_cookie": resp.SetCookies(), "error_text": vfTrunc(vfErrText(resp.Body), 300)}
+			if resp.Code != 302 {
+				var csrfSet []string
+				for _, sc := range resp.SetCookies() {
+					if ck, err := http.ParseSetCookie(sc); err == nil && strings.HasSuffix(ck.Name, "_csrf") && ck.MaxAge >= 0 && ck.Value != "" {
+						csrfSet = append(csrfSet, ck.Name)
+					}
+				}
+				run.Eval(fmt.Sprintf("odd-method|%s|%s|login-refused", cfg.Variant, entry))
+				run.Count("odd_method_logins_refused", 1)
+				if resp.Code < 400 || len(csrfSet) > 0 || resp.Location() != "" {
+					run.Violation("c05:refused-login-start-not-clean", fmt.Sprintf("[%s] %s answered %d with CSRF cookie(s) %v and Location %q", cfg.Label(), entry, resp.Code, csrfSet, resp.Location()), det)
+				}
+				continue
+			}
+			run.Eval(fmt.Sprintf("odd-method|%s|%s|login-started", cfg.Variant, entry))
+			run.Count("odd_method_logins_started", 1)
+			ident := c05Ident(inst)
+			vl, err := vfNewBrowser("").continueLogin(p, ident, resp)
+			if err != nil { // not a redirect to the authorization endpoint
+				c05Rig(run, "odd method [%s]: %v", cfg.Label(), err)
+				continue
+			}
+			// a value that differs from a documented one by case / surrounding blanks only may be normalised: then that method
+			// is the configured one (judged from the authorization request, not from the instance's internals)
+			if m := vl.AuthReq.Params.Get("code_challenge_method"); (m == "S256" || m == "plain") && strings.EqualFold(strings.TrimSpace(sp), m) {
+				ncfg := cfg
+				ncfg.Method, ncfg.Unknown = m, false
+				inst = &c05Inst{Cfg: ncfg, P: p, Lean: true, Tiny: true}
+				run.Count("odd_method_normalised", 1)
+			}
+			l, err := c05FromStart(inst, vl, ident, fmt.Sprintf("odd-%d-%d", k, e))
+			if err != nil {
+				run.Violation("c05:login-started-with-unusable-csrf-cookie", fmt.Sprintf("[%s] %s: the login was started (302) but its CSRF cookie is missing (%v)", cfg.Label(), entry, err), det)
+				continue
+			}
+			cw.addLogin(l) // method rule: a challenge, and code_challenge_method = the configured value
+			run.Count("logins_started", 1)
+			cw.callback(fmt.Sprintf("%s/odd%d-%d", cfg.Label(), k, e), l, l, "echo", &c05Script{Beh: "echo"}, [][2]string{{l.CookieName, l.CookieValue}}, "single", false)
 		}
 	}
 }
@@ -1410,7 +1583,55 @@ func TestVerif_C05(t *testing.T) {
 		}
 		insts = append(insts, &c05Inst{Cfg: cfg, P: p, Lean: true, IdentExtra: pv.extra, ADFSState: pv.adfs})
 	}
-	leanBeh := map[string]bool{"echo": true, "this-logins-nonce": true, "other-logins-nonce": true, "empty-string": true, "absent": true, "null": true, "raw-base64url": true, "hash-prefix": true, "previous-logins-id-token-replayed": true}
+	tinyBeh := map[string]bool{"echo": true, "absent": true, "absent+userinfo-says-this-logins-nonce": true}
+	// the code-challenge method through every configuration channel, alone and together with the deprecated
+	// --force-code-challenge-method. The CONFIGURED method is the documented option's value (docs: "use PKCE code challenges
+	// with the specified method"; changelog: specify code_challenge_method instead of force_code_challenge_method); the
+	// deprecated option counts only where it stands alone.
+	for k, cv := range []struct {
+		name, method string
+		flags        []string
+		toml         string
+		env          [2]string
+		alpha        string
+	}{
+		{name: "cm=S256+force=plain", method: "S256", flags: []string{"--code-challenge-method=S256", "--force-code-challenge-method=plain"}},
+		{name: "cm=plain+force=S256", method: "plain", flags: []string{"--force-code-challenge-method=S256", "--code-challenge-method=plain"}},
+		{name: "cm=S256+force=S512", method: "S256", flags: []string{"--code-challenge-method=S256", "--force-code-challenge-method=S512"}},
+		{name: "force=S256-alone", method: "S256", flags: []string{"--force-code-challenge-method=S256"}},
+		{name: "force=plain-alone", method: "plain", flags: []string{"--force-code-challenge-method=plain"}},
+		{name: "config-file:cm=S256+force=plain", method: "S256", toml: "code_challenge_method = \"S256\"\nforce_code_challenge_method = \"plain\"\n"},
+		{name: "flag:cm=S256+env:force=plain", method: "S256", flags: []string{"--code-challenge-method=S256"}, env: [2]string{"OAUTH2_PROXY_FORCE_CODE_CHALLENGE_METHOD", "plain"}},
+		{name: "alpha:code_challenge_method=S256", method: "S256", alpha: "  code_challenge_method: S256\n"},
+	} {
+		pr := (k+int(run.Env.Seed))%2 == 0
+		cfg := c05Cfg{Method: cv.method, SkipNonce: false, PerReq: pr, Variant: cv.name}
+		var p *vfProxy
+		var err error
+		switch {
+		case cv.alpha != "":
+			// AlphaYAML appends `extra` right behind the provider entry: a two-space indented line is a member of that entry
+			p, err = w.NewProxyRaw(w.AlphaYAML("", cv.alpha), append(w.AlphaBaseFlags(), "--cookie-csrf-per-request="+strconv.FormatBool(pr)))
+		default:
+			flags := append([]string{"--insecure-oidc-skip-nonce=false", "--cookie-csrf-per-request=" + strconv.FormatBool(pr)}, cv.flags...)
+			if cv.toml != "" {
+				flags = append(flags, "--config="+w.File(fmt.Sprintf("c05-%d.cfg", k), cv.toml))
+			}
+			if cv.env[0] != "" {
+				os.Setenv(cv.env[0], cv.env[1])
+			}
+			p, err = w.NewProxy(flags...)
+			if cv.env[0] != "" {
+				os.Unsetenv(cv.env[0])
+			}
+		}
+		if err != nil {
+			t.Fatalf("%s: %v", cfg.Label(), err)
+		}
+		insts = append(insts, &c05Inst{Cfg: cfg, P: p, Lean: true, Tiny: true})
+		run.Count("instances_with_method_through_other_channels_or_both_options", 1)
+	}
+	leanBeh := map[string]bool{"absent+userinfo-says-this-logins-nonce": true, "this-logins-nonce+userinfo-says-other-logins-nonce": true, "echo": true, "this-logins-nonce": true, "other-logins-nonce": true, "empty-string": true, "absent": true, "null": true, "raw-base64url": true, "hash-prefix": true, "previous-logins-id-token-replayed": true}
 	leanShape := map[string]bool{"sequential": true, "overlap-lifo": true}
 	type job struct {
 		inst  *c05Inst
@@ -1428,6 +1649,12 @@ func TestVerif_C05(t *testing.T) {
 			for si, sh := range shapes {
 				if inst.Lean && !(leanBeh[beh.Name] && leanShape[sh.Name]) {
 					continue
+				}
+				if inst.Tiny && !(tinyBeh[beh.Name] && sh.Name == "sequential") {
+					continue
+				}
+				if strings.Contains(beh.Name, "userinfo") && !run.Env.Thorough() && !leanShape[sh.Name] {
+					continue // quick: the userinfo behaviours on two of the four shapes
 				}
 				for _, cross := range []bool{false, true} {
 					for r := 0; r < reps; r++ {
@@ -1468,6 +1695,7 @@ func TestVerif_C05(t *testing.T) {
 			run.Count("responses_scanned_for_leaks", 1)
 		}
 	})
+	cw.oddMethods(t)
 	cw.entropyFaults(insts)
 	cw.history()
 	if run.Counter("failing_callbacks_on_debug_error_pages") == 0 || run.Counter("repeated_callbacks") == 0 {
